@@ -86,6 +86,21 @@ class Origins:
             return
         for n in A.own_nodes(fn):
             if isinstance(n, ast.Assign):
+                if all(isinstance(t, ast.Name) for t in n.targets) and not self._feasible_return(fn, sc, n):
+                    continue        # on the infeasible side of a never-passed boolean default
+                if len(n.targets) == 1 and isinstance(n.targets[0], (ast.Tuple, ast.List)):
+                    # a, b = (x, y)  /  a, b = r  with r only ever bound to displays of that arity: element-wise
+                    disp = [n.value] if isinstance(n.value, (ast.Tuple, ast.List)) else (
+                        [d.value for d in defs_of(A, fn, n.value.id)] if isinstance(n.value, ast.Name) else [])
+                    k = len(n.targets[0].elts)
+                    if disp and all(isinstance(d, (ast.Tuple, ast.List)) and len(d.elts) == k and
+                                    not any(isinstance(x, ast.Starred) for x in d.elts) for d in disp):
+                        for i, t in enumerate(n.targets[0].elts):
+                            o = set()
+                            for d in disp:
+                                o |= self.of(d.elts[i], fn, sc)
+                            self._bind(t, o, None, fn, sc)
+                        continue
                 o = self.of(n.value, fn, sc)
                 for t in n.targets:
                     self._bind(t, o, n.value, fn, sc)
